@@ -485,8 +485,8 @@ def s11_event(scn, ev, res):
     return any(k >= 1 and not (s[1].endswith("/" + SP) and s[1].count("/") == 2) for k, s in zip(res["faulted"], bad))
 
 
-def oracle(scn, ev, pre, res, post, checks):
-    """returns [(message, class-or-None)]"""
+def oracle(scn, ev, pre, res, post, checks, base_post=None):
+    """returns [(message, class-or-None)]; base_post = post-state of the run without events"""
     out = []
     op = scn["op"]
     src, dst = op_keys(scn)
@@ -575,8 +575,14 @@ def oracle(scn, ev, pre, res, post, checks):
     # (5) a fault propagates as an exception and leaves the pre-state or a detectable state
     if res["faulted"] and res["status"] == "done":
         if res["exc"] is None:
-            fail("injected fault at step(s) %s did not propagate: the operation returned normally" % res["faulted"],
-                 "S-11" if False else None)
+            # "never a silent partial success": returning normally after a failed file-system call is acceptable
+            # only if the outcome is the COMPLETE success (the failed call was redundant, e.g. a mkdir of a
+            # directory that exists), i.e. the post-state of the run without any fault
+            complete = base_post is not None and set(post) == set(base_post) and all(
+                same_job(post[k], base_post[k]) for k in post)
+            if not complete:
+                fail("injected fault at step(s) %s did not propagate: the operation returned normally and the result "
+                     "is not that of the fault-free run (silent partial success)" % res["faulted"])
         elif not removal:
             identical = set(pre) == set(post) and all(same_job(pre[k], post[k]) for k in pre)
             detect = any(k[1] in checks[k[0]] for k in (src, dst))
@@ -637,6 +643,8 @@ def run_case(case, ctx):
                         lst.append(e + [[k2, "C"]])
             evs = lst
         nsteps = None
+        if base is None and any(evs):
+            base = runner.run([])    # the fault-free outcome is the yardstick for "complete success"
         for ev in evs:
             pre, orders, res, post, checks = runner.run(ev) if (ev or base is None) else base
             if not ev:
@@ -646,7 +654,7 @@ def run_case(case, ctx):
             r = "crashed" if res["status"] == "crashed" else ("ok" if res["exc"] is None else "exc:" + res["exc"])
             impl.append("|".join(["ev " + ev_wire(ev), r, ",".join(faultfs.step_str(s) for s in res["steps"]), world_render(post),
                                   ",".join(checks[0]), ",".join(checks[1])]))
-            for msg, cls in oracle(case, ev, pre, res, post, checks):
+            for msg, cls in oracle(case, ev, pre, res, post, checks, base[3] if base is not None else None):
                 orc.append(msg)
                 classes.append(cls)
             kind = "none" if not ev else "+".join(e[1] for e in ev)
